@@ -108,7 +108,7 @@ theorem compose (bo : BOps B) (ds : List (MDecl V)) (bsOf : MDecl V → List B) 
           (flatMutex ds (Model.Metrics.collect (List.zipWith metricOf (ds.map (·.decl)) hs))) := by
   have hwf' := hwf.toWFAll
   have hfiles := files_eq pid ps st hc.vinv hc.psEq
-  obtain ⟨out, hm, hnames, _, hfam⟩ := PromVerif.Props.C08.accumulate_eq_spec_partial (voOf V) bo (sfilesOf ps pid st)
+  obtain ⟨out, hm, hnames, _, hfam⟩ := PromVerif.Props.C08.accumulate_eq_dict (voOf V) bo (sfilesOf ps pid st)
     (wfinput bo ds bsOf hwf pid hpid hs ps st hc hlen) (hk_input bo ds bsOf hwf pid hs ps st hc hlen)
   refine ⟨out, by unfold mpCollect; rw [hfiles]; exact hm, ?_⟩
   -- per (metric, child): the per-child sets
@@ -206,5 +206,62 @@ theorem compose (bo : BOps B) (ds : List (MDecl V)) (bsOf : MDecl V → List B) 
     obtain ⟨i, d, h, hd, hh, ka, hka, hf'⟩ := (mem_flatMutex ds hs f).mp hf
     obtain ⟨y, hy, hn'⟩ := (hchild i d h hd hh ka hka kv).mpr ⟨f, hf', hn⟩
     exact ⟨mpFlat d y, (hmp _).mpr ⟨i, d, h, hd, hh, ka, hka, y, hy, rfl⟩, hn'⟩
+
+/-- **family metadata**: the collector reports each family once, under a declared metric's name, with that metric's type
+and help text; and every declared metric that has a child (or is unlabelled) is reported -/
+theorem families_meta (bo : BOps B) (ds : List (MDecl V)) (bsOf : MDecl V → List B) (hwf : WFAllB bo ds bsOf)
+    (pid : Str) (hpid : '_' ∉ pid) (hs : List (Hist V)) (ps : List Params) (st : St V)
+    (hc : Core ds pid hs ps st) (hlen : hs.length = ds.length) :
+    ∃ out, mpCollect bo st = .ok out ∧ (out.map (·.name)).Nodup ∧
+      (∀ om ∈ out, ∃ d ∈ ds, om.name = d.decl.name ∧ om.typ = typStr d.decl.kind ∧ om.doc = d.help) ∧
+      (∀ (i : Nat) (d : MDecl V) (h : Hist V), ds[i]? = some d → hs[i]? = some h → childList d h ≠ [] →
+        ∃ om ∈ out, om.name = d.decl.name) := by
+  have hwf' := hwf.toWFAll
+  have hfiles := files_eq pid ps st hc.vinv hc.psEq
+  obtain ⟨out, hm, hnames, hnd, hfam⟩ := PromVerif.Props.C08.accumulate_eq_dict (voOf V) bo (sfilesOf ps pid st)
+    (wfinput bo ds bsOf hwf pid hpid hs ps st hc hlen) (hk_input bo ds bsOf hwf pid hs ps st hc hlen)
+  refine ⟨out, by unfold mpCollect; rw [hfiles]; exact hm, by rw [hnames]; exact hnd, ?_, ?_⟩
+  · intro om hom
+    obtain ⟨hdoc, htyp, _⟩ := hfam om hom
+    have hfm : om.name ∈ families (sfilesOf ps pid st) := by rw [← hnames]; exact List.mem_map.mpr ⟨om, hom, rfl⟩
+    unfold families at hfm
+    rw [mem_distinct] at hfm
+    obtain ⟨c, hcm, hcn⟩ := List.mem_map.mp hfm
+    obtain ⟨i, d, h, hd, hh, hmet, hin⟩ := contrib_origin ds hwf' pid hs ps st hc hlen c hcm
+    have hname : om.name = d.decl.name := by rw [← hcn, hmet]
+    have hce := contribs_eq ds hwf' pid hs ps st hc hlen i d h hd hh
+    have hne : expContribs d pid st.disk h ≠ [] := fun e => by rw [e] at hin; cases hin
+    refine ⟨d, List.mem_of_getElem? hd, hname, ?_, ?_⟩
+    · rw [htyp, hname]; exact (typOf_exp _ d pid st.disk h hce hne).1
+    · rw [hdoc, hname]
+      unfold Spec.Multiprocess.helpOf
+      rw [hce]
+      cases he : expContribs d pid st.disk h with
+      | nil => exact absurd he hne
+      | cons c0 cs =>
+        have hc0 : c0 ∈ expContribs d pid st.disk h := by rw [he]; exact List.mem_cons_self
+        obtain ⟨ka, _, p, hp, rfl⟩ := (mem_expContribs d pid st.disk h c0).mp hc0
+        exact (mmapKey_fields d ka.1 p hp).2
+  · intro i d h hd hh hcl
+    have hdm : d ∈ ds := List.mem_of_getElem? hd
+    have hce := contribs_eq ds hwf' pid hs ps st hc hlen i d h hd hh
+    cases hl : childList d h with
+    | nil => exact absurd hl hcl
+    | cons ka rest =>
+      have hka : ka ∈ childList d h := by rw [hl]; exact List.mem_cons_self
+      cases hp : cellParams d ka.1 with
+      | nil => exact absurd hp (cellParams_ne_nil d (hwf.decls d hdm).wf.sup ka.1)
+      | cons p _ =>
+        have hin : contribOf d pid st.disk p ∈ expContribs d pid st.disk h :=
+          (mem_expContribs d pid st.disk h _).mpr ⟨ka, hka, p, by rw [hp]; exact List.mem_cons_self, rfl⟩
+        rw [← hce] at hin
+        have := PromVerif.Props.C08.mem_contribs hin
+        have hfm : d.decl.name ∈ families (sfilesOf ps pid st) := by
+          unfold families
+          rw [mem_distinct]
+          exact List.mem_map.mpr ⟨_, this.1, this.2⟩
+        rw [← hnames] at hfm
+        obtain ⟨om, hom, hname⟩ := List.mem_map.mp hfm
+        exact ⟨om, hom, hname⟩
 
 end PromVerif.Lemmas.Backends
